@@ -1,0 +1,15 @@
+// +build !verif
+
+// Package verifhook provides named instrumentation points for the runtime
+// verification harness. Without the build tag "verif" every call is an empty
+// inlinable function.
+package verifhook
+
+// Enabled reports whether the hooks are compiled in.
+const Enabled = false
+
+// SetHandler is a no-op without the verif build tag.
+func SetHandler(h func(name string)) {}
+
+// Point is a no-op without the verif build tag.
+func Point(name string) {}
